@@ -232,4 +232,11 @@ def try_build_device(spec):
     except ValueError as exc:
         if "Malformed Voronoi" in str(exc):
             return None, "refused: " + str(exc)[:80]
+        if "Points cannot contain NaN" in str(exc):
+            # a degenerate (zero-area) triangle gives a NaN circumcentre and make_mesh fails inside qhull:
+            # a refusal (with an unhelpful message), counted as a class
+            return None, "refused: degenerate triangle (NaN circumcentre)"
+        if "Error on input data" in str(exc):
+            # scipy's splprep refuses this outline in Polygon.resample (harness-side shape construction)
+            return None, "refused: resample failed"
         raise
